@@ -85,7 +85,7 @@ class Monitor(object):
 
 class Run(object):
     def __init__(self, wf, inputs=None, outcomes=None, monitors=(), model=None, double_poll=False,
-                 ack_chain=False, label=None, loop_var="i"):
+                 ack_chain=False, label=None, loop_var="i", precrash=False):
         self.wf = wf
         self.inputs = copy.deepcopy(inputs) if inputs else {}
         self.model = model
@@ -113,6 +113,10 @@ class Run(object):
         self.record_full = False
         self.spec = native_specs.WorkflowSpec(copy.deepcopy(wf))
         self.c = conducting.WorkflowConductor(self.spec, inputs=copy.deepcopy(self.inputs))
+        if precrash:
+            # persisted and restored before anything else touched the new conductor
+            self.c = conducting.WorkflowConductor.deserialize(self.c.serialize())
+            self.spec = self.c.spec
         self.last = None
         self.last = self.snap()
         for m in self.monitors:
